@@ -40,6 +40,34 @@ Fixpoint cs_poll_steps (fuel : nat) (s : ConcSub.state) (c : nat) : ConcSub.stat
            end
   end.
 
+(* one poll of a StreamingPull response stream: it returns as soon as a batch is
+   yielded (the consumer's message count grows), otherwise when it blocks *)
+Definition cs_got (s : ConcSub.state) (c : nat) : nat :=
+  match ConcSub.get s c with Some cs => ConcSub.cgot cs | None => 0 end.
+
+Fixpoint cs_poll_stream_steps (fuel : nat) (s : ConcSub.state) (c : nat) : ConcSub.state :=
+  match fuel with
+  | O => s
+  | S f => match ConcSub.cons_step cs_ho cs_K s c with
+           | Some s' => if Nat.ltb (cs_got s c) (cs_got s' c) then s' else cs_poll_stream_steps f s' c
+           | None => s
+           end
+  end.
+
+Definition cs_is_stream (s : ConcSub.state) (c : nat) : bool :=
+  match ConcSub.get s c with
+  | Some cs => match ConcSub.ckind cs with ConcSub.Stream => true | ConcSub.Unary => false end
+  | None => false
+  end.
+
+Definition cs_poll_stream (s : ConcSub.state) (c : nat) : ConcSub.state :=
+  let s1 := cs_poll_stream_steps 40 s c in
+  if Nat.ltb (cs_got s c) (cs_got s1 c) then s1
+  else match ConcSub.del_exit cs_ho s1 c with
+       | Some s2 => s2
+       | None => s1
+       end.
+
 Definition cs_poll (s : ConcSub.state) (c : nat) : ConcSub.state :=
   let s1 := cs_poll_steps 40 s c in
   match ConcSub.del_exit cs_ho s1 c with
@@ -131,6 +159,20 @@ Definition cs_op (st : cs_state) (ts : list str) : cs_state * str :=
             end
         | _ => (st, cs_bad)
         end
+      else if is_kw "XS" o then
+        match args with
+        | [id; _; mx] =>
+            match p_nat id, p_nat mx with
+            | Some i, Some m =>
+                let c := length (ConcSub.conss s) in
+                match ConcSub.step cs_ho cs_K s (ConcSub.LArrive ConcSub.Stream (N.to_nat m)) with
+                | Some s' => (mkCs s' ((i, c) :: cs_ids st), kw "XS")
+                | None => (st, cs_bad)
+                end
+            | _, _ => (st, cs_bad)
+            end
+        | _ => (st, cs_bad)
+        end
       else if is_kw "XQ" o then
         match args with
         | [id] =>
@@ -138,6 +180,13 @@ Definition cs_op (st : cs_state) (ts : list str) : cs_state * str :=
             | Some i =>
                 match cs_lookup i (cs_ids st) with
                 | Some c =>
+                    if cs_is_stream s c then
+                      let s' := cs_poll_stream s c in
+                      (mkCs s' (if cs_finished s' c then cs_forget i (cs_ids st) else cs_ids st),
+                       if Nat.ltb (cs_got s c) (cs_got s' c)
+                       then join_sp [kw "XQ"; kw "batch"; r_num (N.of_nat (cs_got s' c - cs_got s c))]
+                       else cs_phase_line s' c)
+                    else
                     let s' := cs_poll s c in
                     (mkCs s' (if cs_finished s' c then cs_forget i (cs_ids st) else cs_ids st), cs_phase_line s' c)
                 | None => (st, join_sp [kw "XQ"; kw "gone"])
